@@ -11,6 +11,11 @@ git -C $MW checkout -q --detach "$(git -C /repo rev-parse HEAD)" 2>/dev/null
 git -C $MW checkout -q -- . ; git -C $MW clean -fdq -e target
 mkdir -p $MV
 rsync -a --delete --exclude .git --exclude .build/target --exclude .build/run --exclude .build/replays /verif/ $MV/
+if [ -n "${MUT_FROM_HEAD:-}" ]; then
+  # overlay the committed state of /verif (ignores work in progress of concurrently working agents);
+  # -m: fresh mtimes so that cargo rebuilds what differs
+  git -C /verif archive HEAD | tar -x -m -C $MV
+fi
 mkdir -p $MV/.build
 if [ ! -d $MV/.build/target ]; then cp -r /verif/.build/target $MV/.build/target 2>/dev/null; fi
 # relocate paths
